@@ -226,7 +226,71 @@ func runOSOverlay(c *Ctx) {
 	} else {
 		c.Oracle("FAIL osovl-list listing:os-overlay ReadDir(/d): %v", err)
 	}
-	c.Extra["os_overlay"] = fmt.Sprintf("%d paths of a union MemMapFs base + BasePathFs(OsFs) overlay incl. a base file below an overlay regular file (oracle only)", n)
+	// both layers on the operating system (which answers ENOTDIR below a regular file and does not
+	// create missing ancestors on Mkdir): modifications go to the overlay, the base is untouched
+	m := 0
+	for _, roBase := range []bool{false, true} {
+		dirB, _ := os.MkdirTemp("", "afosovlb-")
+		dirL, _ := os.MkdirTemp("", "afosovll-")
+		os.WriteFile(filepath.Join(dirB, "a"), []byte("base-a"), 0o644) // a FILE in the base ...
+		os.MkdirAll(filepath.Join(dirL, "a"), 0o755)                     // ... a DIRECTORY in the overlay: the overlay's entry wins
+		os.MkdirAll(filepath.Join(dirB, "x", "y", "z"), 0o755)
+		os.WriteFile(filepath.Join(dirB, "x", "y", "f"), []byte("deep"), 0o644) // base only, no ancestor in the overlay yet
+		os.WriteFile(filepath.Join(dirB, "x", "y", "z", "g"), []byte("deeper"), 0o644)
+		os.WriteFile(filepath.Join(dirB, "x", "y", "h"), []byte("mode"), 0o644)
+		var base afero.Fs = afero.NewBasePathFs(afero.NewOsFs(), dirB)
+		if roBase {
+			base = afero.NewReadOnlyFs(base)
+		}
+		u := afero.NewCopyOnWriteFs(base, afero.NewBasePathFs(afero.NewOsFs(), dirL))
+		bad := func(sig, format string, a ...any) {
+			c.Oracle("FAIL osovl2-%d-%v %s %s (base and overlay on the OS, read-only base wrapper: %v)", m, roBase, sig, fmt.Sprintf(format, a...), roBase)
+		}
+		m++
+		c.Count("osoverlay.modify")
+		if err := afero.WriteFile(u, "/a/b", []byte("new"), 0o644); err != nil {
+			bad("modify:os-overlay:create-below-overlay-dir", "WriteFile(/a/b): %v; /a is a directory in the view (overlay), a file only in the base", err)
+		} else if b, err := afero.ReadFile(u, "/a/b"); err != nil || string(b) != "new" {
+			bad("view-differs:os-overlay:content", "ReadFile(/a/b) = %q, %v after writing \"new\"", b, err)
+		}
+		if _, err := u.Stat("/a/nope"); err == nil {
+			bad("view-differs:os-overlay:absent", "Stat(/a/nope) succeeds, neither layer has it")
+		}
+		m++
+		c.Count("osoverlay.modify")
+		if f, err := u.OpenFile("/x/y/f", os.O_WRONLY|os.O_APPEND, 0); err != nil {
+			bad("modify:os-overlay:copy-up-nested", "OpenFile(/x/y/f, O_WRONLY|O_APPEND): %v; the file exists in the base", err)
+		} else {
+			f.Write([]byte("!"))
+			f.Close()
+			if b, err := afero.ReadFile(u, "/x/y/f"); err != nil || string(b) != "deep!" {
+				bad("view-differs:os-overlay:content", "ReadFile(/x/y/f) = %q, %v after appending to \"deep\"", b, err)
+			}
+		}
+		m++
+		c.Count("osoverlay.modify")
+		if err := u.Chmod("/x/y/z/g", 0o600); err != nil {
+			bad("modify:os-overlay:copy-up-nested", "Chmod(/x/y/z/g): %v; the file exists in the base", err)
+		} else if fi, err := u.Stat("/x/y/z/g"); err != nil || fi.Mode().Perm() != 0o600 {
+			bad("view-differs:os-overlay:mode", "Stat(/x/y/z/g) after Chmod 0600: %v, %v", fi, err)
+		}
+		m++
+		c.Count("osoverlay.modify")
+		tm := time.Unix(1234567890, 0)
+		if err := u.Chtimes("/x/y/h", tm, tm); err != nil {
+			bad("modify:os-overlay:copy-up-nested", "Chtimes(/x/y/h): %v; the file exists in the base", err)
+		} else if fi, err := u.Stat("/x/y/h"); err != nil || !fi.ModTime().Equal(tm) {
+			bad("view-differs:os-overlay:mtime", "Stat(/x/y/h) after Chtimes: %v, %v", fi, err)
+		}
+		for name, want := range map[string]string{"a": "base-a", "x/y/f": "deep", "x/y/z/g": "deeper", "x/y/h": "mode"} {
+			if b, err := os.ReadFile(filepath.Join(dirB, name)); err != nil || string(b) != want {
+				bad("base-changed:os-overlay", "the base's %s now holds %q, %v; want %q", name, b, err, want)
+			}
+		}
+		os.RemoveAll(dirB)
+		os.RemoveAll(dirL)
+	}
+	c.Extra["os_overlay"] = fmt.Sprintf("%d paths of a union MemMapFs base + BasePathFs(OsFs) overlay incl. a base file below an overlay regular file; %d modifying calls with base and overlay both on the OS (a name below an overlay directory that is a file in the base, copy-up of nested base-only files) (oracle only)", n, m)
 }
 
 // C10 with an operating-system cache LAYER (oracle only): MemMapFs.Create registers missing
